@@ -6,6 +6,7 @@ message in 1 MiB updates.  Oracle: three-way equality of bundled build, OpenSSL 
 modules (an implementation that is neither of the two).  Files: each build writes the tiny configurations and medium
 contents; outputs must be byte-identical and cross-read identically.
 """
+PROMOTE = True   # quick runs the former thorough bound (seconds); thorough goes deeper where a deeper bound is defined (ctx.deep)
 import core, zckref, universe, hashlib
 
 EDGE = [55, 56, 63, 64, 65, 111, 112, 119, 120, 127, 128, 129]
